@@ -217,4 +217,12 @@ def c02_8(c: Ctx) -> None:
     c06_3(c)
 
 
+@ob('C02.9', 'TYPESTATE', 'the global lock is held for as long as any of its nested holds lasts: its re-entrance counter counts every hold (same obligation as C06.8) — a re-entrant entry '
+    'that resets the counter lets the inner exit release the lock in the middle of the outer event, and another bus\'s inline loop then starts this bus\'s next event while the earlier handler still runs')
+def c02_9(c: Ctx) -> None:
+    from .c06 import check_depth_counter
+
+    check_depth_counter(c)
+
+
 OBLIGATIONS = ob.obs
